@@ -8,6 +8,7 @@ import (
 	"encoding/json"
 	"fmt"
 	"math"
+	"math/bits"
 	"os"
 	"runtime/debug"
 	"runtime/pprof"
@@ -585,8 +586,11 @@ func zeros(n int) string {
 
 func (rn *runner) d3(d4set map[uint64]struct{}) bool {
 	r := rn.r
-	const chunk = 1 << 16
-	total := int64(0x7f800000) // positive finite binary32 bit patterns (0 excluded below)
+	// index i -> binary32 value: exponent field i%255 (0..254), mantissa = bit-reversed i/255, so that the first
+	// 255*2^k indices are exactly "every exponent x every k-bit mantissa prefix (zero fill)": a run that is cut by
+	// the deadline has still completed a structured sub-domain.
+	const chunk = 255 * 256
+	total := int64(255) << 23
 	var done atomic.Int64
 	ok := r.Parallel(total, chunk, func(w int, lo, hi int64) {
 		var fs []fail
@@ -594,10 +598,12 @@ func (rn *runner) d3(d4set map[uint64]struct{}) bool {
 		var buf [64]byte
 		ver := &rn.env(w).ver
 		for i := lo; i < hi; i++ {
-			if i == 0 {
+			ex := uint32(i % 255)
+			mant := bits.Reverse32(uint32(i/255)) >> 9
+			if ex == 0 && mant == 0 {
 				continue
 			}
-			x := float64(math.Float32frombits(uint32(i)))
+			x := float64(math.Float32frombits(ex<<23 | mant))
 			got := safeFToStr(x, 0, 0, buf[:0])
 			num := nm.Of(x)
 			if cls := judgeShortest(ver, &num, got, false); cls != "" {
@@ -612,8 +618,8 @@ func (rn *runner) d3(d4set map[uint64]struct{}) bool {
 		r.Eval(hi - lo)
 		r.NontrivialN(nt)
 		done.Add(hi - lo)
-		if lo%(chunk*1024) == 0 {
-			rn.sample(map[string]interface{}{"domain": "D3", "binary32_from": fmt.Sprintf("%08x", lo), "binary32_to": fmt.Sprintf("%08x", hi-1)})
+		if lo%(chunk*512) == 0 {
+			rn.sample(map[string]interface{}{"domain": "D3", "index_from": lo, "index_to": hi - 1, "mapping": "binary32 exponent field = i%255, mantissa = bitreverse23(i/255)"})
 		}
 		rn.report(fs)
 	})
@@ -621,7 +627,16 @@ func (rn *runner) d3(d4set map[uint64]struct{}) bool {
 	if ok {
 		rn.setBound("D3_binary32", "all 2^31-2^23-1 positive finite binary32 values widened (shortest digits via ftoa)")
 	} else {
-		rn.setBound("D3_binary32", fmt.Sprintf("%d of %d positive finite binary32 values (index ranges handed out in increasing order; not complete)", done.Load(), total))
+		// chunks are handed out in increasing order; everything below done - workers*chunk is certainly finished
+		safe := done.Load() - int64(r.Workers)*chunk
+		k := 0
+		for k < 23 && int64(255)<<(uint(k)+1) <= safe {
+			k++
+		}
+		if safe < 255 {
+			k = -1
+		}
+		rn.setBound("D3_binary32", fmt.Sprintf("%d of %d positive finite binary32 values: at least every exponent x every %d-bit mantissa prefix with zero fill (not complete)", done.Load(), total, k))
 	}
 	return ok
 }
